@@ -255,7 +255,7 @@ impl Expr {
                             }
                             Cow::Owned(index.for_type(flags)?)
                         }
-                        lookup @ Expr::DotLookup { expected_type, .. } => {
+                        lookup @ Expr::DotLookup { lhs: object, expected_type, .. } => {
                             if let Some(root) = lookup.root_ident() {
                                 if root.is_const() {
                                     bail!(
@@ -263,6 +263,10 @@ impl Expr {
                                         root.name()
                                     )
                                 }
+                            }
+                            // the members of a module are never written from outside it, whatever name the module is reached through
+                            if matches!(object.for_type(flags)?.disregard_distractors(false), TypeLayout::Module(..)) {
+                                bail!("cannot reassign using {op} to a member of a module")
                             }
                             Cow::Borrowed(expected_type)
                         }
